@@ -1,3 +1,4 @@
+import copy
 import itertools
 import numpy as np
 import mdtraj as md
@@ -25,8 +26,9 @@ def rmsf_calc(centers, populations=None, ref_frame=0, per_residue=True):
     rmsfs : nd.array, shape=(n_residues,),
         Returns the population weighted RMSF of each residue.
     """
-    # align all states to reference frame
-    centers = centers.superpose(centers[ref_frame])
+    # align all states to reference frame (superpose works in place:
+    # align a private copy, not the caller's trajectory)
+    centers = copy.deepcopy(centers).superpose(centers[ref_frame])
 
     # if no populations are supplied, generate a uniform distribution
     if populations is None:
